@@ -114,12 +114,17 @@ func newWorld(g lstore.Geometry, digests int) *world {
 }
 
 func (w *world) put(i int, name string, valid bool, gate bool) error {
+	return w.putClone(i, name, valid, gate, 0)
+}
+
+// putClone: the store receives one half of a stream clone of the upload (sibling: 1 released, 2 consumed elsewhere).
+func (w *world) putClone(i int, name string, valid bool, gate bool, sibling int) error {
 	content := w.contents[i]
 	data := content
 	if !valid {
 		data = bytes.Repeat([]byte("!"), len(content))
 	}
-	err, src := w.s.Put(w.dig(i, name), lstore.PutSpec{Chunks: [][]byte{data}, Gate: gate})
+	err, src := w.s.Put(w.dig(i, name), lstore.PutSpec{Chunks: [][]byte{data}, Gate: gate, CloneSibling: sibling})
 	if src.Closes != 1 {
 		failf(fmt.Sprintf("upload-source-closes=%d", src.Closes), "upload source closed %d times", src.Closes)
 	}
@@ -261,6 +266,20 @@ func concBody(g lstore.Geometry, variant int) func() {
 					failf("read-outside-uploader-subtree", "Get under b returned %q", d)
 				}
 			})
+		case 3, 4:
+			// the object exists under "a"; an upload of wrong content under "b" arrives as one half of a stream
+			// clone whose other half is released (3) / consumed (4) by another thread (a mirroring front end)
+			if err := w.put(0, "a", true, false); err != nil {
+				vsched.HarnessFail("prefill: %v", err)
+			}
+			run("bad-b-cloned", func() { err := w.putClone(0, "b", false, true, variant-2); vsched.Obs("Xb=%s", status.Code(err)) })
+			run("get-b", func() {
+				d, err := w.s.Get(w.dig(0, "b"))
+				vsched.Obs("Gb=%s", status.Code(err))
+				if err == nil {
+					failf("read-outside-uploader-subtree", "Get under b returned %q", d)
+				}
+			})
 		}
 		wg.Wait()
 		w.invariantSound("at the end")
@@ -295,8 +314,8 @@ func main() {
 	scs = append(scs, mc.Scenario{Name: "seq/one-digest-tiny-blocks", Space: fmt.Sprintf("all sequences of %d operations, 8-byte blocks (rotation after 2 uploads) on %s", d1, small), Bound: 0, ShardDepth: 2, Body: seqBody(small, d1, 1), Budget: time.Duration(ev.Pick(r, 60, 600)) * time.Second})
 	cg := base
 	cg.DataGates = true
-	for v := 0; v < 3; v++ {
-		scs = append(scs, mc.Scenario{Name: fmt.Sprintf("conc/variant%d", v), Space: []string{"Put(d@a valid) || Put(d@b invalid) || Get(d@b)", "Put(d@a/b) || Put(d@ab) || Get(d@a)", "d@a in an old block: FindMissing(d@a/b, d@b) || Put(d@b invalid) || Get(d@b)"}[v] + " on " + cg.String(), Bound: ev.Pick(r, 2, 3), Body: concBody(cg, v), Budget: time.Duration(ev.Pick(r, 40, 400)) * time.Second})
+	for v := 0; v < 5; v++ {
+		scs = append(scs, mc.Scenario{Name: fmt.Sprintf("conc/variant%d", v), Space: []string{"Put(d@a valid) || Put(d@b invalid) || Get(d@b)", "Put(d@a/b) || Put(d@ab) || Get(d@a)", "d@a in an old block: FindMissing(d@a/b, d@b) || Put(d@b invalid) || Get(d@b)", "d@a stored: Put(d@b invalid, arriving as one half of a stream clone whose other half is released by another thread) || Get(d@b)", "d@a stored: Put(d@b invalid, arriving as one half of a stream clone whose other half is consumed by another thread) || Get(d@b)"}[v] + " on " + cg.String(), Bound: ev.Pick(r, 2, 3), Body: concBody(cg, v), Budget: time.Duration(ev.Pick(r, 40, 400)) * time.Second})
 	}
 	mc.Run(r, scs)
 	r.Finish()
